@@ -157,6 +157,7 @@ func checkC08(c *Ctx, r *rep.Report) {
 		ruleSwap(r, p)
 		timed("bitorigin", func() { ruleBitOrigin(r, p, "modm"); ruleBitOrigin(r, p, "curve25519") })
 		ruleVartimePredicates(r, p)
+		timed("magnitudes+exact", func() { ruleMagnitudes(r, p, "curve25519"); ruleMagnitudes(r, p, "modm"); ruleExponentChains(r, p) })
 	}
 }
 
@@ -183,6 +184,7 @@ func checkC16(c *Ctx, r *rep.Report) {
 		ruleSchedules(r, p)
 		ruleBitOrigin(r, p, "modm")
 		ruleGlobalWrites(r, p, mem.New())
+		ruleMagnitudes(r, p, "curve25519")
 	}
 }
 
